@@ -43,12 +43,6 @@ theorem empty_cornersOrZero (zero : Nat → α) (t : Topology) (k : AttrKey) :
     cornersOrZero zero (MeshVal.empty t : MeshVal α) k = [] := by
   simp [cornersOrZero, cornersOf, MeshVal.empty, attr?, Attrs.find?]
 
-/-- what one copy contributes -/
-def copyCorners (zero : Nat → α) (pos : AttrKey) (m : MeshVal α) (k : AttrKey) (φ : α → α) : List (Option α) :=
-  match m.mapAttr pos φ with
-  | some c => cornersOrZero zero c k
-  | none => []
-
 theorem repeat_fold_corners [DecidableEq α] {zero : Nat → α} {pos : AttrKey} {m : MeshVal α} (h : WF m) (k : AttrKey) :
     ∀ (ts : List (α → α)) (acc r : MeshVal α), WF acc →
       ts.foldl (fun acc φ => do
